@@ -629,7 +629,7 @@ pub fn run(args: &Args) -> i32 {
             }
         }
     }
-    let n_double = budget(args, 10, 600, 20_000);
+    let n_double = budget(args, 10, 600, 120_000);
     for _ in 0..n_double {
         let pi = rng0.usize(pairs.len());
         let (m1, m2) = (1 + rng0.usize(3), 1 + rng0.usize(3));
@@ -657,7 +657,7 @@ pub fn run(args: &Args) -> i32 {
         replay_case(&check, p, false);
     }
     // malicious endpoint
-    let reps = budget(args, 1, 12, 150);
+    let reps = budget(args, 1, 12, 600);
     let n_e = VARIANTS.len() as u64 * 2 * reps;
     vmon::par_cases(&check, n_e, args.threads, |i, rng| {
         let variant = VARIANTS[(i as usize) % VARIANTS.len()];
@@ -665,7 +665,7 @@ pub fn run(args: &Args) -> i32 {
         evil_case(&check, rng, variant, honest_is_responder, !tiny && i % 3 == 0);
     });
     check.note("phase_s_endpoint", json!(check.elapsed()));
-    let n_p = budget(args, 6, 300, 5_000);
+    let n_p = budget(args, 6, 300, 20_000);
     vmon::par_cases(&check, n_p, args.threads, |_, rng| prologue_case(&check, rng));
     check.note("exhaustive", json!("single flips and truncations: every byte of the three messages for the ed25519 pair (thorough: all 8 bits; other pairs every byte, one bit)"));
     check.finish()
